@@ -211,6 +211,10 @@ def run(chk):
         chk.check(ok, "T-TABLE/ZXController::frame_pos/%s" % m, "frame position is not min(frame_clocks / clocks_frame, 1.0): %s" % rets)
     chk.floor("beeper-rows", 4)
     chk.sample({"samples_per_frame": "sample_rate / 50", "push_sites": sorted(push_fns)})
+    # the resampler's phase stays in [0,1): a necessary condition of 'every sample is finite and bounded'
+    from . import floatinv
+    chk.rule("T-INV/float", "interval analysis of AymPrecise::process: phase accumulator in [0,1) at every interpolation use and at return, for every step up to clock/(8000*64)")
+    floatinv.phase_accumulator(chk, prog)
     return chk.finish(EXPL)
 
 
